@@ -119,7 +119,8 @@ class Scripted:
     """One scripted SFTP server session"""
 
     def __init__(self, process, version=3, exts=(), files=None, hold=(READ, WRITE),
-                 ranges_per_reply=128, hold_all=False, natural=None):
+                 ranges_per_reply=128, hold_all=False, natural=None,
+                 limits=None):
         self.p = process
         self.version = version
         self.exts = list(exts)
@@ -127,6 +128,9 @@ class Scripted:
         self.hold = set(hold)
         self.hold_all = hold_all
         self.natural = natural          # _Plan: answer on own clock
+        self.limits = limits            # (max_read, max_write) ENFORCED, bytes
+        self.refused = 0                # over-long WRITEs refused
+        self.capped = 0                 # READs answered short because of the cap
         self.ranges_per_reply = ranges_per_reply
         self.handles = {}
         self.nh = 0
@@ -266,7 +270,10 @@ class Scripted:
                       (u32(0) if self.version == 3 else u32(0) + b'\x05'))
         elif ptype == EXTENDED:
             name = cur.str()
-            if name == b'ranges@asyncssh.com':
+            if name == b'limits@openssh.com' and self.limits:
+                self.send(EXTENDED_REPLY, u32(rid) + u64(256 * 1024) +
+                          u64(self.limits[0]) + u64(self.limits[1]) + u64(64))
+            elif name == b'ranges@asyncssh.com':
                 h = cur.str()
                 off = cur.u64()
                 length = cur.u64()
@@ -325,7 +332,13 @@ class Scripted:
             if req.kind == READ:
                 avail = max(0, min(req.length, len(f.content) - req.off)) \
                     if f is not None else 0
+                if self.limits and avail > self.limits[0]:
+                    avail = self.limits[0]      # a short read, not end of file
+                    self.capped += 1
                 how, n = ('data', avail) if avail else ('eof', 0)
+            elif self.limits and req.length > self.limits[1]:
+                how = 'err'
+                self.refused += 1
             else:
                 how = 'ok'
         if how == 'err' or f is None:
@@ -1418,5 +1431,115 @@ def record_natural(seed, server='scripted', c=None, workdir=None):
             if loop.exceptions:
                 drop_world()
     finally:
+        shutil.rmtree(tmp, ignore_errors=True)
+    return res
+
+
+# ======================================================================
+# server limits as a dimension (specs/SftpIO/Limits.tla)
+# ======================================================================
+
+def limits_case(op, lim, B, size, short, version=3, max_requests=3,
+                workdir=None):
+    """One row of the Limits table: a scripted server that advertises (or
+    not) limits@openssh.com and ENFORCES them, the real client API with an
+    explicit or default block size.  Units of 4096 bytes."""
+    U = 4096
+    w = world()
+    loop = w.loop
+    avail = size - 1 if (short and size > 1) else size
+    res = {'op': op, 'lim': lim, 'B': B, 'size': size, 'short': short,
+           'l1': [], 'outcome': None}
+    c = {'data': list(range(avail)), 'L': avail}
+    src = src_bytes(c, 1) if False else b''.join(unit(p, U) for p in
+                                                 range(avail))
+    payload = b''.join(unit(i, U, 5) for i in range(size))
+    files = {}
+    if op in ('read', 'readall', 'get', 'copy'):
+        files[b'src'] = RFile(src)
+    exts = [(b'limits@openssh.com', b'1')] if lim else []
+    tmp = tempfile.mkdtemp(prefix='C12lim', dir=workdir or tlc.WORK)
+    sftp, script = w.session(
+        sftp_version=version, version=version, exts=exts, files=files,
+        hold=(), limits=(lim * U, lim * U) if lim else None)
+    bs = -1 if B == -1 else B * U
+    try:
+        async def call():
+            if op in ('read', 'readall'):
+                f = await sftp.open('src', 'rb', block_size=bs,
+                                    max_requests=max_requests)
+                try:
+                    return await (f.read(size * U, 0) if op == 'read'
+                                  else f.read())
+                finally:
+                    await f.close()
+            if op == 'write':
+                f = await sftp.open('dst', 'wb', block_size=bs,
+                                    max_requests=max_requests)
+                try:
+                    return await f.write(payload, 0)
+                finally:
+                    await f.close()
+            kw = dict(block_size=bs, max_requests=max_requests, sparse=False)
+            if op == 'get':
+                return await sftp.get('src', os.path.join(tmp, 'dst'), **kw)
+            if op == 'put':
+                with open(os.path.join(tmp, 'src'), 'wb') as lf:
+                    lf.write(src)
+                return await sftp.put(os.path.join(tmp, 'src'), 'dst', **kw)
+            return await sftp.copy('src', 'dst', **kw)
+
+        task = loop.create_task(call())
+        try:
+            loop.run_until_complete(asyncio.wait([task]))
+        except BaseException as e:       # pylint: disable=broad-except
+            res['l1'].append(('Hang', f'the call did not finish: '
+                              f'{type(e).__name__}'))
+            task.cancel()
+            return res
+        exc = None if task.cancelled() else task.exception()
+        res['capped'], res['refused'] = script.capped, script.refused
+        if exc is not None:
+            res['outcome'] = ('error',)
+            res['exc'] = repr(exc)
+            if not isinstance(exc, (asyncssh.Error, OSError)):
+                res['l1'].append(('LimitsCorrect', f'{op} raised '
+                                  f'{exc!r}'))
+            elif not script.refused:
+                res['l1'].append(('SpuriousFailure', f'{op}: the server '
+                                  f'refused nothing, yet the call raised '
+                                  f'{exc!r}'))
+            return res
+        val = task.result()
+        if op in ('read', 'readall'):
+            want = src[:size * U] if op == 'read' else src
+            res['outcome'] = ('data', len(val) // U)
+            if val != want:
+                short_taken = want.startswith(val) and len(val) < len(want)
+                res['l1'].append((
+                    'ShortReadContinued' if short_taken else 'ReadCorrect',
+                    f'{op} of {len(want)} bytes (block_size={bs}, server '
+                    f'limit {lim * U or "not advertised"}) returned '
+                    f'{len(val)} bytes' + (' - the server\'s short answer '
+                                           'was taken for the whole result'
+                                           if short_taken else '')))
+        else:
+            if op == 'get':
+                p = os.path.join(tmp, 'dst')
+                dst = open(p, 'rb').read() if os.path.exists(p) else None
+            else:
+                dst = bytes(script.files[b'dst'].content) \
+                    if b'dst' in script.files else None
+            want = payload if op == 'write' else src
+            res['outcome'] = ('ok', len(want) // U)
+            if dst != want:
+                res['l1'].append(('CopyCorrect' if op != 'write' else
+                                  'WriteCorrect',
+                                  mismatch(f'destination of {op}', dst or b'',
+                                           want)))
+    finally:
+        w.end_session(sftp)
+        if loop.exceptions:
+            drop_world()
         shutil.rmtree(tmp, ignore_errors=True)
     return res
